@@ -357,27 +357,33 @@ def ev(e, env, funcs=None):
             st = ev(s.step, env, funcs) if s.step is not None else None
             return v[lo:hi:st]
         return v[ev(s, env, funcs)]
-    if isinstance(e, (ast.ListComp, ast.GeneratorExp)) and len(e.generators) == 1 and not e.generators[0].is_async:
-        gen = e.generators[0]
-        it = model_seq(ev(gen.iter, env, funcs))
-        if isinstance(it, (range, FrozenDict)):
-            it = tuple(it)
-        if not isinstance(it, (tuple, str)) or len(it) > 200:
-            raise NotClosed('comprehension iterable')
+    if isinstance(e, (ast.ListComp, ast.GeneratorExp, ast.SetComp)) and e.generators and not any(g_.is_async for g_ in e.generators):
         out = []
-        for item in it:
-            env2 = dict(env)
-            if isinstance(gen.target, ast.Name):
-                env2[gen.target.id] = item
-            elif isinstance(gen.target, ast.Tuple) and all(isinstance(t, ast.Name) for t in gen.target.elts) and isinstance(item, tuple) \
-                    and len(item) == len(gen.target.elts):
-                for t, v in zip(gen.target.elts, item):
-                    env2[t.id] = v
-            else:
-                raise NotClosed('comprehension target')
-            if all(ev(c, env2, funcs) for c in gen.ifs):
-                out.append(ev(e.elt, env2, funcs))
-        return tuple(out)
+
+        def gen_loop(k, env_k):
+            if k == len(e.generators):
+                out.append(ev(e.elt, env_k, funcs))
+                return
+            gen = e.generators[k]
+            it = model_seq(ev(gen.iter, env_k, funcs))
+            if isinstance(it, (range, FrozenDict)):
+                it = tuple(it)
+            if not isinstance(it, (tuple, str)) or len(it) > 200:
+                raise NotClosed('comprehension iterable')
+            for item in it:
+                env2 = dict(env_k)
+                if isinstance(gen.target, ast.Name):
+                    env2[gen.target.id] = item
+                elif isinstance(gen.target, ast.Tuple) and all(isinstance(t, ast.Name) for t in gen.target.elts) and isinstance(item, tuple) \
+                        and len(item) == len(gen.target.elts):
+                    for t, v in zip(gen.target.elts, item):
+                        env2[t.id] = v
+                else:
+                    raise NotClosed('comprehension target')
+                if all(ev(c, env2, funcs) for c in gen.ifs):
+                    gen_loop(k + 1, env2)
+        gen_loop(0, env)
+        return frozenset(out) if isinstance(e, ast.SetComp) else tuple(out)
     if isinstance(e, ast.Attribute):
         # attribute of a model object (an instance a rule put into the environment to stand for a run-time object)
         try:
@@ -388,6 +394,10 @@ def ev(e, env, funcs=None):
             return getattr(base, e.attr)
         if getattr(base, '_sa_model', False) and callable(getattr(base, e.attr, None)) and getattr(getattr(base, e.attr), '__self__', None) is base:
             return getattr(base, e.attr)      # the bound method as a value
+        if isinstance(base, (str, int, float, tuple, frozenset, type(None))) or getattr(base, '_sa_closed', False):
+            # a constant (or a model declared complete): an attribute it does not have raises, as in Python
+            if not hasattr(base, e.attr):
+                raise AttributeError('%s object has no attribute %r' % (type(base).__name__, e.attr))
         raise NotClosed('Attribute')
     if isinstance(e, ast.JoinedStr):
         out = []
@@ -512,6 +522,8 @@ def ev(e, env, funcs=None):
             r, m = call_target(e)
             key = (r + '.' + m) if r else m
             if key in funcs:
+                if getattr(funcs[key], '_ignores_args', False):
+                    return funcs[key]()          # an oracle whose answer does not depend on the (possibly open) arguments
                 if getattr(funcs[key], '_wants_env', False):
                     return funcs[key](env, *[ev(a, env, funcs) for a in e.args])
                 return funcs[key](*[ev(a, env, funcs) for a in e.args])
